@@ -28,6 +28,32 @@ def convention_tables (repo, ctx=None):
       if call_name(c) == 'split' and c.args and isinstance(c.args[0], ast.Constant) and isinstance(c.args[0].value, str):
         strip = c.args[0].value
     if prefix and strip: out[prefix] = strip
+  # the same construction parameterised in a helper method: getattr(self, <param> + name) / split(<param>), called
+  # from __init__ with constant prefixes
+  for hf in sw.methods.values():
+    if hf is init: continue
+    ps = hf.params
+    pfx_p = strip_p = None; pfx_c = strip_c = None
+    for c in calls_in(hf.node, nested=True):
+      if call_name(c) == 'getattr' and len(c.args) >= 2 and norm(c.args[0]) == 'self' and isinstance(c.args[1], ast.BinOp) and isinstance(c.args[1].op, ast.Add):
+        l_ = c.args[1].left
+        if isinstance(l_, ast.Name) and l_.id in ps: pfx_p = l_.id
+        elif isinstance(l_, ast.Constant) and isinstance(l_.value, str): pfx_c = l_.value
+      if call_name(c) == 'split' and c.args:
+        a_ = c.args[0]
+        if isinstance(a_, ast.Name) and a_.id in ps: strip_p = a_.id
+        elif isinstance(a_, ast.Constant) and isinstance(a_.value, str): strip_c = a_.value
+    if pfx_p is None and strip_p is None: continue
+    for c in calls_in(init.node, nested=True):
+      if isinstance(c.func, ast.Attribute) and c.func.attr == hf.name and norm(c.func.value) == 'self':
+        def arg (pname):
+          if pname is None: return None
+          i = ps.index(pname) - 1
+          v = kwarg(c, pname, i)
+          return v.value if isinstance(v, ast.Constant) and isinstance(v.value, str) else None
+        pfx = arg(pfx_p) if pfx_p else pfx_c
+        strp = arg(strip_p) if strip_p else strip_c
+        if pfx and strp: out[pfx] = strp
   for need in ('_rx_', '_action_', '_stats_', '_flow_mod_'):
     if need not in out:
       raise AnalysisError("SoftwareSwitchBase.__init__ no longer builds the %s* handler table by naming convention" % need)
